@@ -625,11 +625,11 @@ def run(ctx):
         for s in sch:
             cases.append({"part": "schedule", "schedule": s, "same_form": same})
     # the same schedules (same form) on a cache whose entry is damaged
-    for s_ in sch:
+    for s_ in schedules("quick"):         # the <= 1 preemption schedules in both tiers (each costs two rebuilds)
         for dmg in ([{"class": "garbage"}] if ctx.tier == "quick" else [{"class": "garbage"}, {"class": "page", "cut": 4096}]):
             cases.append({"part": "schedule", "schedule": s_, "same_form": True, "damage": dmg, "src": src, "order": order})
     if ctx.tier == "thorough":
-        cases += [{"part": "kill", "event": n} for n in range(1, nev + 1, 2)]
+        cases += [{"part": "kill", "event": n} for n in range(1, nev + 1, 4)]
         cases += [{"part": "race", "n": n, "same_form": same} for n in (2, 4, 8, 16) for same in (True, False)]
     else:
         cases += [{"part": "kill", "event": n} for n in range(2, nev + 1, 8)]
@@ -662,7 +662,7 @@ def run(ctx):
     out.sample([c for c in cases if c["part"] == "schedule"][3])
     out.rule = ("fault states: every prefix of the recorded write history x truncation class {empty, 64 B, one page, half, size-1 "
                 "(thorough: k/8, two pages)} + absent; single damages of every artefact of a complete cache (truncations, garbage, "
-                "deletion); the same-form schedules also on a cache whose entry is damaged; every pair of artefacts damaged at once (product of damage classes); a second fault after the first recovery; SIGKILL at every 8th (thorough: 2nd) inotify event; schedules: "
+                "deletion); the same-form schedules also on a cache whose entry is damaged; every pair of artefacts damaged at once (product of damage classes); a second fault after the first recovery; SIGKILL at every 8th (thorough: 4th) inotify event; schedules: "
                 "all interleavings of the 5+5 stage-boundary releases of two processes with <= 1 preemption (thorough: all 252) for the "
                 "same and for distinct forms; one free-running race (thorough: 2..16 processes). Every state is followed by a request "
                 "in a fresh process. Non-trivial = distinct fault states / schedules.")
